@@ -11,24 +11,37 @@ TRUSTED = [
 ]
 
 
-def gen_ili_file(rng):
+def gen_ili_file(rng, prior=None):
+    """prior: the expectation of an earlier file of the same case; the new file then re-lists some of its ids with the same
+    status and another definition (an update that a 'did anything change?' shortcut keyed on the status would skip)"""
     header = rng.choice(['ili\tstatus\tdefinition', 'ILI\tstatus\tdefinition', 'ili\tdefinition', 'ILI\tstatus', 'ili'])
+    if prior:
+        header = rng.choice(['ili\tstatus\tdefinition', 'ILI\tstatus\tdefinition', 'ili\tdefinition'])
     cols = header.lower().split('\t')
     lines = [header]
     ids = rng.sample(['i%d' % k for k in range(1, 9)], rng.randint(2, 7))
+    again = set()
+    if prior:
+        again = set(rng.sample(sorted(prior), min(len(prior), rng.randint(1, 3))))
+        ids = ids + [i for i in sorted(again) if i not in ids]
+        rng.shuffle(ids)
     expect_ = {}
     for i in ids:
         row = {'ili': i}
         if 'status' in cols:
             row['status'] = rng.choice(['active', 'provisional', 'deprecated', 'weird status'])
+            if i in again:
+                row['status'] = prior[i][0]
         if 'definition' in cols:
             row['definition'] = rng.choice(['def of ' + i, '', 'x < y & "z"', '"quoted" at the start of ' + i,
                                             '"unbalanced quote in ' + i, "it's " + i, 'ends with a quote "',
                                             # characters that str.splitlines() breaks at but a file object does not
                                             'line\u2028separator in ' + i, 'next\x85line ' + i, 'form\x0cfeed, fs\x1c gs\x1d ' + i,
                                             'v\x0btab and para\u2029graph'])
+        if i in again and 'definition' in cols:
+            row['definition'] = rng.choice(['revised definition of ' + i, '']) if prior[i][1] != '' else 'now defined: ' + i
         fields = [row.get(c, '') for c in cols]
-        if rng.random() < 0.35 and len(fields) > 1:
+        if rng.random() < 0.35 and len(fields) > 1 and i not in again:
             fields = fields[:-1]              # a short line: the last column is missing
             row.pop(cols[-1], None)
         lines.append('\t'.join(fields))
@@ -60,7 +73,9 @@ def run(rep, tier, build, replay=None):
                     # a synset with an existing ILI may carry an <ILIDefinition> of its own (legal, unusual)
                     if ss['ili'] not in ('', 'in') and rng.random() < 0.5:
                         ss['ili_definition'] = {'text': 'gloss from the lexicon for ' + ss['ili'], 'meta': None}
-        files = [gen_ili_file(rng) for _ in range(rng.choice([1, 1, 2]))]
+        files = [gen_ili_file(rng)]
+        if rng.random() < 0.6:
+            files.append(gen_ili_file(rng, prior=files[0][1] if rng.random() < 0.8 else None))
         ops = [['add', r] for _n, r in u] + [['ili', f] for f, _ in files]
         perms = list(itertools.permutations(range(len(ops))))
         rng.shuffle(perms)
@@ -96,6 +111,11 @@ def run(rep, tier, build, replay=None):
                 view = ili_view(after)
                 old = ili_view(before)
                 for i, (stt, dfn) in fexp[op[1]].items():
+                    if i in old:
+                        kind = ('same status, ' if old[i][0] == stt else 'other status, ') + \
+                               ('same definition' if old[i][1] == dfn else 'other definition')
+                        upd = rep.coverage.setdefault('updates_of_known_ilis', {})
+                        upd[kind] = upd.get(kind, 0) + 1
                     if view.get(i) != (stt, dfn):
                         rep.fail('a listed ILI does not get the file\'s status and definition', dict(case, step=k),
                                  {'ili': i, 'got': view.get(i), 'expected': [stt, dfn], 'file_loaded': op[1],
